@@ -3354,3 +3354,5 @@ M('C05', 'replay-negative-slice-degenerates', FL, "            return bytearray(
 M('C02', 'rsa-sig-negative-slice-degenerates', FL, "        return self.md_mod_n.to_mpibytes()[2:]", "        mpi = self.md_mod_n.to_mpibytes()\n        return mpi[-(len(mpi) - 2):]", 'C02.4')
 M('C02', 'hash2-negative-slice-degenerates', PGP, "        sig._signature.hash2 = bytearray(h2.digest()[:2])", "        digest = h2.digest()\n        sig._signature.hash2 = bytearray(digest[:-(len(digest) - 2)])", 'C02.2')
 M('C02', 'key-hashdata-negative-slice-degenerates', PGP, "        return self._uid.__bytearray__()[len(self._uid.header):]", "        body = self._uid.__bytearray__()\n        return body[-(len(body) - len(self._uid.header)):]", 'C02.1b')
+T('C05', 'twin-parse-split-into-two-helpers', FL, "    def parse(self, packet):\n        hl = self.bytes_to_int(packet[:2])\n        hashed_raw = packet[:2 + hl]", "    def parse(self, packet):\n        self._parse_hashed(packet)\n        self._parse_unhashed(packet)\n\n    def _parse_hashed(self, packet):\n        hl = self.bytes_to_int(packet[:2])\n        hashed_raw = packet[:2 + hl]",
+  more=[(FL, "        self._hashed_raw = hashed_raw\n\n        uhl = self.bytes_to_int(packet[:2])", "        self._hashed_raw = hashed_raw\n\n    def _parse_unhashed(self, packet):\n        uhl = self.bytes_to_int(packet[:2])")])
